@@ -20,7 +20,17 @@ def run_one(sid, verify=False):
     tmp = tempfile.mkdtemp(prefix="seeded_")
     out = {"id": sid, "property": meta["property"]}
     try:
-        subprocess.run(["git", "-C", "/repo", "worktree", "add", "-q", "--detach", os.path.join(tmp, "wt"), "HEAD"], check=True)
+        for attempt in range(8):  # concurrent runs contend for git's worktree lock
+            r0 = subprocess.run(["git", "-C", "/repo", "worktree", "add", "-q", "--detach", os.path.join(tmp, "wt"), "HEAD"],
+                                capture_output=True, text=True)
+            if r0.returncode == 0:
+                break
+            import time
+
+            time.sleep(1.5 + attempt)
+        else:
+            out["error"] = "git worktree add failed: " + r0.stderr[:200]
+            return out
         wt = os.path.join(tmp, "wt")
         r = subprocess.run(["git", "-C", wt, "apply", os.path.join(d, "patch.diff")], capture_output=True, text=True)
         if r.returncode != 0:
